@@ -260,6 +260,21 @@ def sampler_scenarios(seed, per_group, faults="none"):
             out.append({"preset": preset, "dim": 3, "density": DENS[0], "settings": st, "num_cores": 2,
                         "sched_seed": rnd.randrange(1 << 30), "sched_amp_us": 50, "group": [2, 2, 12], "const_init": True,
                         "script": [{"op": "wait", "ms": 4000}] * 6 + [{"op": "abort"}]})
+        # a long pause (0.35 s) of slowed chains that still have draws to do: a parked chain must stay parked however long
+        # the pause lasts (quiescent observations before and after the wait must agree)
+        for j, preset in enumerate(["diag_nuts", "diag_mclmc"]):
+            st = {"num_tune": 6, "num_draws": 6, "num_chains": 2, "seed": rnd.randrange(1 << 30)}
+            if "nuts" in preset:
+                st["maxdepth"] = 3
+            else:
+                st["step_size"] = 0.5
+                st["momentum_decoherence_length"] = 1.0
+            out.append({"preset": preset, "dim": 2, "density": DENS[0], "settings": st, "num_cores": 2,
+                        "sched_seed": rnd.randrange(1 << 30), "sched_amp_us": 50, "group": [2, 2, 12],
+                        "delays": [[0, 1500], [1, 2500]], "keep_script": True,
+                        "script": [{"op": "sleep", "us": 20000 + 15000 * j}, {"op": "pause"}, {"op": "sleep", "us": 20000},
+                                   {"op": "progress"}, {"op": "sleep", "us": 350000}, {"op": "progress"}, {"op": "inspect"},
+                                   {"op": "resume"}] + [{"op": "wait", "ms": 4000}] * 6 + [{"op": "abort"}]})
     if faults == "failures":
         # an unrecoverable error at every evaluation of a short warm-up that crosses the first transformation
         # change (so that it also lands in the re-run of the step-size search): the run must report it
